@@ -162,3 +162,72 @@ def decode_mappings_v3(mappings, n_sources=None, n_names=None):
                     segs.append((gcol, src, line, col, None))
         out.append(segs)
     return out
+
+
+def normalized_line_defect(line, carry_in, result, carry_out):
+    """Executable post-condition of a line normaliser (property C09, 'by linear interpolation from the preceding segment').
+
+    `line`: relative segments of one generated line -- () ignored, (dcol,) = unmapped from here, (dcol, dsrc, dline,
+    dscol[, dname]) = mapped.  A decoder that has consumed the normalised lines so far is `carry_in` source columns
+    behind the true position.  `result`, `carry_out`: what the normaliser returned.  Returns None if a V3 consumer that
+    interpolates linearly between segments sees, at the generated column of every input segment, exactly the mapping
+    the input gives there; else a description of the first difference."""
+    # absolute view of the input (true source position starts at (0, 0, 0); only differences matter)
+    g = s = l = c = 0
+    want = []          # (gencol, None) unmapped | (gencol, (src, line, col, named?))
+    for seg in line:
+        if not seg:
+            continue
+        g += seg[0]
+        if len(seg) == 1:
+            want.append((g, None))
+            continue
+        s += seg[1]
+        l += seg[2]
+        c += seg[3]
+        want.append((g, (s, l, c, len(seg) == 5 and seg[4])))
+    # absolute view of the output as the decoder sees it, shifted back to true coordinates by carry_in
+    og = os_ = ol = 0
+    oc = -carry_in
+    out = []
+    for seg in result:
+        if len(seg) not in (1, 4, 5):
+            return 'normalised segment %r has length %d' % (seg, len(seg))
+        if seg[0] < 0:
+            return 'generated columns decrease at %r' % (seg,)
+        og += seg[0]
+        if len(seg) == 1:
+            out.append((og, None))
+        else:
+            os_ += seg[1]
+            ol += seg[2]
+            oc += seg[3]
+            out.append((og, (os_, ol, oc, len(seg) == 5 and seg[4])))
+    if carry_out != c - oc:
+        return 'returned carry %r, but the decoder is %r source columns behind' % (carry_out, c - oc)
+
+    def in_force(col):
+        cur = 'none'
+        for og_, m in out:
+            if og_ <= col:
+                cur = (og_, m)
+        return cur
+    for k, (gcol, m) in enumerate(want):
+        if any(g2 == gcol for g2, _ in want[k + 1:]):
+            continue        # zero-width: a later segment at the same generated column replaces this one for every consumer
+        f = in_force(gcol)
+        if m is None:
+            if f != 'none' and f[1] is not None:
+                return 'unmapped text at column %d reads as mapped to %r' % (gcol, f[1])
+            continue
+        if f == 'none' or f[1] is None:
+            return 'segment at column %d (-> %r) is unmapped after normalisation' % (gcol, m[:3])
+        og_, (fs, fl, fc, fname) = f
+        got = (fs, fl, fc + (gcol - og_))
+        if got != m[:3]:
+            return 'column %d maps to source %d line %d column %d, the input says %d/%d/%d' % ((gcol,) + got + m[:3])
+        if m[3] is not False and not (og_ == gcol and fname == m[3]):
+            return 'the name index delta %r at column %d is lost' % (m[3], gcol)
+        if m[3] is False and og_ == gcol and fname is not False and False:
+            return 'a name appears at column %d' % gcol
+    return None
